@@ -243,10 +243,31 @@ func buildC18Doc(seed uint64, feats map[string]int) *document.Document {
 			}
 		}
 	}
-	if r.chance(40) {
-		d.AddHeader(document.HeaderFooterTypeDefault, "Header {{v0}} / {{missing}}")
-		d.AddFooter(document.HeaderFooterTypeDefault, "Footer {{v1}}")
-		feats["header and footer with placeholders"]++
+	if r.chance(50) {
+		// headers and footers of every kind (default, first page, even pages), through every entry point
+		kinds := []document.HeaderFooterType{document.HeaderFooterTypeDefault, document.HeaderFooterTypeFirst, document.HeaderFooterTypeEven}
+		for _, k := range kinds {
+			if k != document.HeaderFooterTypeDefault && !r.chance(50) {
+				continue
+			}
+			switch r.intn(3) {
+			case 0:
+				d.AddHeader(k, "Header {{v0}} / {{missing}}")
+			case 1:
+				d.AddFormattedHeader(k, &document.HeaderFooterConfig{Text: "Header {{v2}} / {{v0}}", Format: &document.TextFormat{Bold: true}, Alignment: document.AlignCenter})
+			case 2:
+				d.AddHeaderWithPageNumber(k, "Header {{v3}} ", true)
+			}
+			switch r.intn(3) {
+			case 0:
+				d.AddFooter(k, "Footer {{v1}}")
+			case 1:
+				d.AddFormattedFooter(k, &document.HeaderFooterConfig{Text: "Footer {{v1}} {{missing}}", Format: &document.TextFormat{Italic: true}})
+			case 2:
+				d.AddFooterWithPageNumber(k, "Footer {{v0}} ", true)
+			}
+			feats["header and footer with placeholders: "+string(k)]++
+		}
 	}
 	if r.chance(40) {
 		d.SetPageMargins(15, 20, 25, 30)
